@@ -265,7 +265,7 @@ func c16Profiles(tier string) []Profile {
 		}}
 	faulted := Profile{Name: "faulted-enumeration", Exec: OnlySigs(c07Exec(1, 1, false), "len-wrong", "visit:", "enumerate:"),
 		Budget: map[int]int{1: 0, 2: 0, 3: 1}, ShardLevel: 3,
-		Rule: "enumeration when a file call fails: the C07 driver (7 initial stores x every single operation x one failing file call at every index, retried or not; a call that reports success is taken at its word) followed by Set, Flush, the full read battery, a copy of the file re-opened, Reopen and the battery again; Len and the full visits either report the error or enumerate every item (a read error dropped inside the ascending visit gives a short count)"}
+		Rule: "enumeration when a file call fails: the C07 driver (8 initial stores x every single operation x one failing file call at every index, retried or not; a call that reports success is taken at its word) followed by Set, Flush, the full read battery, a copy of the file re-opened, Reopen and the battery again; Len and the full visits either report the error or enumerate every item (a read error dropped inside the ascending visit gives a short count)"}
 	shapes := shapesProfile("shapes", 5, 2, harness.Monitors{}, func(w *harness.World) {
 		if _, ok := w.Colls["x"]; ok && !w.Closed {
 			w.LenOp("x")
@@ -274,8 +274,21 @@ func c16Profiles(tier string) []Profile {
 		}
 		w.ObserveAll()
 	})
+	enumFinish := func(w *harness.World) {
+		if _, ok := w.Colls["x"]; ok && !w.Closed {
+			w.LenOp("x")
+			w.BlockVisit("x", false)
+			w.BlockVisit("x", true)
+			w.RandomVisit("x")
+		}
+		w.ObserveAll()
+	}
+	shapesPool := shapesProfile("shapes-pool", 4, 1, harness.Monitors{}, enumFinish)
+	shapesPool.CBMask = harness.CBItemAlloc | harness.CBAddRef | harness.CBDecRef
 	return []Profile{
 		faulted,
+		{Name: "shapes-pool", Exec: shapesPool.Exec(), Budget: map[int]int{explore.ClassRand: 0},
+			Rule: shapesRule(4, 1) + "; the store has ItemAlloc / ItemAddRef / ItemDecRef callbacks that form a recycling pool (an item whose count reaches zero is scrubbed: key and value overwritten); then Len, VisitItemsAscendBlockEx (key-only and with values) and VisitItemsRandom: every item exactly once - an enumeration that keeps using a key of an item it has already released walks with a scrubbed target"},
 		{Name: "shapes", Exec: shapes.Exec(), Budget: map[int]int{explore.ClassRand: 0},
 			Rule: shapesRule(5, 2) + "; then Len, VisitItemsAscendBlockEx and VisitItemsRandom: every item exactly once"},
 		{Name: "histories", Exec: hist.Exec(), Budget: map[int]int{explore.ClassRand: 0},
